@@ -707,3 +707,11 @@ package ackhandler
 //@   modifies nothing
 //@ loop HasAckElicitingFrames #0
 //@   modifies nothing
+
+//@ func (h *receivedPacketTracker) GetAckFrame$1
+//@   props C07
+//@   requires ack != nil
+//@   ensures [one-range-per-interval] len(ack.AckRanges) == old(len(ack.AckRanges)) + 1 && result
+//@   ensures [bounds-copied] ack.AckRanges[len(ack.AckRanges) - 1].Smallest == arg0.Start && ack.AckRanges[len(ack.AckRanges) - 1].Largest == arg0.End
+//@   ensures [earlier-ranges-kept] forall(k, 0, old(len(ack.AckRanges)), ack.AckRanges[k].Smallest == old(ack.AckRanges[k].Smallest) && ack.AckRanges[k].Largest == old(ack.AckRanges[k].Largest))
+//@   modifies ack.AckRanges, elems(wire.AckRange)
